@@ -197,13 +197,28 @@ class SeedSpace(Subspace):
                     rot=self.seed)
 
     def run(self, case):
+        return bfs(SEEDS[case["seed_name"]], case["seed_name"], case["cap"], case.get("full", True),
+                   case.get("rot", 0))
+
+
+REDUCED = {  # one mutator per class of successor state + the observers that read what they change
+    # (the three cached accessors key_count / has_null_keys / ikey_count only multiply the state count by
+    # 2^3 with independent cache bits; they stay in the full alphabet of the hand-picked seeds)
+    "sum", "median", "sum_t", "median_t", "groups", "cumsum", "head1", "rolling_sum_g", "ema_alpha",
+    "sum@bool", "first@bool", "size@slice", "sum@pos", "last_t", "cumsum@bool", "median@bool",
+    "rolling_sum", "count_ikey@bool", "min:i4@bool", "size", "copy:last_t", "first@slice",
+    "last:u1@bool",
+}
+
+
+def bfs(spec, label, cap, full, rot, reduced=False):
         from groupby_lib import GroupBy
 
+        case = dict(seed_name=label, cap=cap)
         res = Result()
-        spec = SEEDS[case["seed_name"]]
         raw = build_keys(spec)
         n = len(spec["keys"])
-        rot = case.get("rot", 0) % n
+        rot = rot % n
         V = np.array((U[rot:] + U[:rot])[:n])
         V[1 % n] = np.nan
         Mb = np.array(MASK[:n], dtype=bool)
@@ -213,7 +228,9 @@ class SeedSpace(Subspace):
         T, _ = O.times_for(n)
         VS = V if isinstance(V, pd.Series) else pd.Series(V, index=pd.Index(range(n), dtype="int64"))
         ctxs = {k: O.Ctx(V=V, M=m, V2=None, T=T, VS=VS, n=n) for k, m in masks.items()}
-        A = alphabet(n, case.get("full", True))
+        A = alphabet(n, full)
+        if reduced:
+            A = [a for a in A if a[0] in REDUCED]
         seams = env.seams()
         seams.set(executor=sched.NAMESPACE, threshold=spec.get("threshold"),
                   fanout=spec.get("fanout"))
@@ -270,11 +287,55 @@ class SeedSpace(Subspace):
                     frontier.append(hist + (ai,))
         res.states = len(seen)
         res.nontrivial = len(seen) > 1
-        res.extra = {"state_cap_hit": int(capped), f"maxdepth_{case['seed_name']}": maxdepth,
-                     f"states_{case['seed_name']}": len(seen), "seeds_closed": int(not capped)}
+        if reduced:
+            res.extra = {"state_cap_hit": int(capped), "seeds_closed": int(not capped),
+                         f"word_seeds_with_{min(len(seen), 99):02d}_states": 1,
+                         f"word_seeds_with_depth_{maxdepth}": 1}
+        else:
+            res.extra = {"state_cap_hit": int(capped), f"maxdepth_{case['seed_name']}": maxdepth,
+                         f"states_{case['seed_name']}": len(seen), "seeds_closed": int(not capped)}
         seams.reset()
         return res
 
 
+class WordSeedSpace(Subspace):
+    """Every key word over {null, 0, 1, 2} up to a length as the seed of its own state-graph search
+    (chunk-wise representation, so that the object re-organises itself), reduced alphabet."""
+    shard = 2
+
+    def __init__(self, name, lo, hi, configs, seed=0, cap=150):
+        from .. import words as W
+        self.name, self.seed, self.cap = name, seed, cap
+        self.ws = W.WordSpace(W.K(3), lo, hi)
+        self.configs = configs  # [(fanout, sort)]
+        self.warm_key = "wordseeds"
+
+    def size(self):
+        return len(self.ws) * len(self.configs)
+
+    def warm_indices(self, n):
+        return (n - 1,)
+
+    def case(self, i):
+        wi, ci = divmod(i, len(self.configs))
+        F, S = self.configs[ci]
+        return dict(word=[int(k) for k in self.ws.at(wi)], fanout=F, sort=S, cap=self.cap, rot=self.seed)
+
+    def run(self, case):
+        labels = (3.0, 1.0, 2.0)
+        r = case.get("rot", 0) % 3
+        labels = labels[r:] + labels[:r]
+        keys = [NA if k < 0 else labels[k] for k in case["word"]]
+        spec = dict(keys=keys, kind="float", threshold=1, fanout=case["fanout"], sort=case["sort"])
+        return bfs(spec, f"word={case['word']} fanout={case['fanout']} sort={case['sort']}", case["cap"],
+                   True, case.get("rot", 0), reduced=True)
+
+
 def subspaces(tier, seed):
-    return [SeedSpace(tier, seed)]
+    sp = [SeedSpace(tier, seed)]
+    if tier == "quick":
+        sp.append(WordSeedSpace("wordseeds-K3-n2to3", 2, 3, [(2, True), (3, False)], seed=seed))
+    else:
+        sp.append(WordSeedSpace("wordseeds-K3-n2to4", 2, 4, [(2, True), (2, False), (3, True), (3, False),
+                                                             (4, True)], seed=seed))
+    return sp
